@@ -3,7 +3,8 @@
 generate(repo) parses, with Python `ast`, from the CURRENT source
 
   datamodel/treecollectionmodel.py   TreeArray.__len__, validate_rooting, update, add_tree, extend,
-                                     __iadd__, __add__;  SplitDistribution.update
+                                     __iadd__, __add__, read_from_files (the per-source burn-in
+                                     loop over the tree yielder);  SplitDistribution.update
   application/sumtrees.py            TreeAnalysisWorker.__init__ (the worker's TreeArray),
                                      TreeAnalysisWorker.run (queue protocol: FACTS),
                                      TreeProcessor.serial_analyze_trees (its TreeArray),
@@ -25,6 +26,11 @@ reached so far (a Python exception leaves earlier assignments in place):
     self.m(args)  (translated m)   match gen_m self args with (self, Some e) => (self, Some e) | (self, None) => ... end
     for k in other.d: BODY     fold_left (fun self k => BODY) (dict_keys (d other)) self
     while c < n: r = q.get() ...   structural recursion over the list of queue entries
+    for [i,] tree in [enumerate(]tree_yielder[)]: BODY
+                               structural recursion over the list of (tree_yielder.current_file_index,
+                               tree) pairs the yielder delivers (an INPUT of the generated function);
+                               the local variables bound before the loop are its parameters
+    x >= n, x += 1  with x possibly None:  match x with None => TypeError | Some v => ... end
 
 The meaning of the primitives (attribute reads/writes, `is`, len, dict / list operations, which
 attributes are outside the model) is fixed in coq/Model/C06GenPrims.v; the types of attributes and
@@ -92,7 +98,7 @@ CFG_FIELDS = {
 }
 FIELDS = {"TA": TA_FIELDS, "SD": SD_FIELDS, "TREE": TREE_FIELDS}
 COQTYPE = {"TA": "tarr", "SD": "sdist", "TREE": "trec", "OptBool": "option bool", "Bool": "bool",
-           "OptInt": "option Z", "Int": "Z"}
+           "OptInt": "option Z", "Int": "Z", "OptBool_": "option bool"}
 
 EXCEPTIONS = {
     "MixedRootingError": "EMixedRooting",
@@ -742,6 +748,228 @@ def gen_add(cls):
             % (fn.lineno, ps[0][0], ps[1][0], new, code, indent(rest)))
 
 
+
+# ---- TreeArray.read_from_files: the loop over the tree yielder
+
+class LoopFn(Fn):
+    """compiler for the body of `for ... in tree_yielder:` (and the statements before it)"""
+
+    def __init__(self, name, state, env, yielder, intlike, add_tree_sig):
+        Fn.__init__(self, name, state, "exc", env)
+        self.yielder = yielder
+        self.intlike = intlike              # names that hold None-or-int
+        self.add_tree_sig = add_tree_sig    # [(param, default ast or None)] of TreeArray.add_tree after self
+        self.u = 0
+
+    def fresh(self):
+        self.u += 1
+        return "dv_u%d" % self.u
+
+    def expr(self, e):
+        if isinstance(e, ast.Attribute):
+            ch = attr_chain(e)
+            if ch and self.yielder is not None and ch[0] == self.yielder:
+                if ch[1] == ["current_file_index"]:
+                    return "yielder_file_index", "Int"
+                bad(e, "attribute of the tree yielder")
+        if isinstance(e, ast.Name) and e.id == self.yielder:
+            bad(e, "the tree yielder as a value")
+        return Fn.expr(self, e)
+
+    def compare(self, l, op, r, node):
+        lc, lt = self.expr(l)
+        rc, rt = self.expr(r)
+        if isinstance(op, (ast.Eq, ast.NotEq)) and "OptInt" in (lt, rt) and lt in ("OptInt", "Int", "None") and rt in ("OptInt", "Int", "None"):
+            code = "(oz_is %s %s)" % (self.coerce(lc, lt, "OptInt", node), self.coerce(rc, rt, "OptInt", node))
+            return "(negb %s)" % code if isinstance(op, ast.NotEq) else code
+        return Fn.compare(self, l, op, r, node)
+
+    def assign(self, s, nxt):
+        if len(s.targets) == 1 and isinstance(s.targets[0], ast.Name) and isinstance(s.value, ast.Constant) \
+                and s.value.value is None and s.targets[0].id in self.intlike and s.targets[0].id not in self.env:
+            self.env[s.targets[0].id] = "OptInt"
+            return "let %s := (None : option Z) in\n%s" % (s.targets[0].id, nxt())
+        return Fn.assign(self, s, nxt)
+
+    def if_stmt(self, s, nxt):
+        t = s.test
+        if isinstance(t, ast.Compare) and len(t.ops) == 1 and isinstance(t.ops[0], (ast.Gt, ast.Lt, ast.GtE, ast.LtE)) \
+                and isinstance(t.left, ast.Name):
+            lc, lt = self.expr(t.left)
+            if lt == "OptInt":
+                # `None >= n` raises TypeError
+                u = self.fresh()
+                self.env[u] = "Int"
+                t2 = ast.copy_location(ast.Compare(left=ast.copy_location(ast.Name(id=u, ctx=ast.Load()), t.left),
+                                                   ops=t.ops, comparators=t.comparators), t)
+                s2 = ast.copy_location(ast.If(test=t2, body=s.body, orelse=s.orelse), s)
+                inner = Fn.if_stmt(self, s2, nxt)
+                return "match %s with\n| None => %s\n| Some %s =>\n%s\nend" % (lc, self.err("(EPy TypeErr)"), u, inner)
+        return Fn.if_stmt(self, s, nxt)
+
+    def augassign(self, s, nxt):
+        t = s.target
+        if isinstance(t, ast.Name) and isinstance(s.op, ast.Add) and self.env.get(t.id) in ("Int", "OptInt"):
+            vc, vt = self.expr(s.value)
+            if vt != "Int":
+                bad(s, "+= of a %s" % vt)
+            if self.env[t.id] == "Int":
+                return "let %s := (Z.add %s %s) in\n%s" % (t.id, t.id, vc, nxt())
+            u = self.fresh()                  # `None + 1` raises TypeError
+            return ("match %s with\n| None => %s\n| Some %s =>\nlet %s := (Some (Z.add %s %s)) in\n%s\nend"
+                    % (t.id, self.err("(EPy TypeErr)"), u, t.id, u, vc, nxt()))
+        return Fn.augassign(self, s, nxt)
+
+    def call_stmt(self, c, nxt):
+        ch = attr_chain(c.func)
+        if ch and ch[0] == self.state and ch[1] == ["add_tree"]:
+            # self.add_tree(tree=..., is_bipartitions_updated=..., [index=...]): arguments by the def's parameter list
+            names = [n for n, _d in self.add_tree_sig]
+            given = {}
+            if len(c.args) > len(names):
+                bad(c, "add_tree arguments")
+            for n, a in zip(names, c.args):
+                given[n] = a
+            for k in c.keywords:
+                if k.arg is None or k.arg not in names or k.arg in given:
+                    bad(c, "add_tree keyword %s" % k.arg)
+                given[k.arg] = k.value
+            codes = []
+            for (n, d), want in zip(self.add_tree_sig, ["TREE", "Bool", "OptInt"]):
+                v = given.get(n, d)
+                if v is None:
+                    bad(c, "add_tree called without %s" % n)
+                code, ty = self.expr(v)
+                codes.append(self.coerce(code, ty, want, c))
+            st = self.state
+            return ("match gen_add_tree %s %s with\n| (%s, Some e) => %s\n| (%s, None) =>\n%s\nend"
+                    % (st, " ".join(codes), st, self.err("e"), st, nxt()))
+        return Fn.call_stmt(self, c, nxt)
+
+
+def names_intlike(stmts):
+    """names that are (syntactically) given an int in the statements: x = <int constant>, x = <name>, x += ..."""
+    out = set()
+    for s in ast.walk(ast.Module(body=list(stmts), type_ignores=[])):
+        if isinstance(s, ast.AugAssign) and isinstance(s.target, ast.Name):
+            out.add(s.target.id)
+        elif isinstance(s, ast.Assign) and len(s.targets) == 1 and isinstance(s.targets[0], ast.Name):
+            v = s.value
+            if (isinstance(v, ast.Constant) and isinstance(v.value, int) and not isinstance(v.value, bool)) or isinstance(v, ast.Name):
+                out.add(s.targets[0].id)
+    return out
+
+
+def gen_read_from_files(cls):
+    """TreeArray.read_from_files(files, schema, **kwargs): what is done with the trees the yielder delivers.
+    The yielder (Tree.yield_from_files over ALL `files`) is the input list `yielded` of
+    (current_file_index, tree) pairs; keyword tree_offset is the parameter `tree_offset`."""
+    fn = find_method(cls, "read_from_files")
+    a = fn.args
+    if a.vararg or a.kwonlyargs or a.posonlyargs or a.kwarg is None or [x.arg for x in a.args][1:] != ["files", "schema"]:
+        bad(fn, "read_from_files: parameter form")
+    selfname, kwname = a.args[0].arg, a.kwarg.arg
+    addfn = find_method(cls, "add_tree")
+    aa = addfn.args
+    if aa.vararg or aa.kwarg or aa.kwonlyargs or aa.posonlyargs or len(aa.args) != 4:
+        bad(addfn, "add_tree: parameter form")
+    nd = len(aa.defaults)
+    sig = [(x.arg, (aa.defaults[i - (3 - nd)] if i - (3 - nd) >= 0 else None)) for i, x in enumerate(aa.args[1:])]
+    body = [s for s in fn.body if not (isinstance(s, ast.Expr) and isinstance(s.value, ast.Constant))]
+    loops = [i for i, s in enumerate(body) if isinstance(s, ast.For)]
+    if len(loops) != 1 or loops[0] != len(body) - 1:
+        bad(fn, "read_from_files: expected the loop over the yielder as the last statement")
+    loop = body[-1]
+    pre = body[:-1]
+    intlike = names_intlike(pre + [loop])
+    f = LoopFn("read_from_files", selfname, {selfname: "TA"}, None, intlike, sig)
+    offset_var = None
+    default_offset = None
+    lets = []
+    scalars = []          # loop parameters in binding order
+
+    def is_kw_pop(v, key):
+        return (isinstance(v, ast.Call) and attr_chain(v.func) == (kwname, ["pop"]) and not v.keywords and v.args
+                and isinstance(v.args[0], ast.Constant) and v.args[0].value == key)
+    for s in pre:
+        if isinstance(s, ast.If) and isinstance(s.test, ast.Compare) and len(s.test.ops) == 1 and isinstance(s.test.ops[0], ast.In) \
+                and isinstance(s.test.left, ast.Constant) and s.test.left.value == "taxon_namespace" \
+                and isinstance(s.test.comparators[0], ast.Name) and s.test.comparators[0].id == kwname and not s.orelse:
+            # the namespace given as keyword must be self's: namespaces are outside the model (one namespace)
+            for x in s.body:
+                ok = (isinstance(x, ast.Expr) and is_kw_pop(x.value, "taxon_namespace")) or \
+                     (isinstance(x, ast.If) and not x.orelse and len(x.body) == 1 and isinstance(x.body[0], ast.Raise))
+                if not ok:
+                    bad(x, "read_from_files: taxon_namespace keyword handling")
+            continue
+        if not (isinstance(s, ast.Assign) and len(s.targets) == 1 and isinstance(s.targets[0], ast.Name)):
+            bad(s, "read_from_files: statement before the loop")
+        name, v = s.targets[0].id, s.value
+        if is_kw_pop(v, "tree_offset"):
+            if offset_var is not None or len(v.args) != 2 or not (isinstance(v.args[1], ast.Constant) and isinstance(v.args[1].value, int)):
+                bad(s, "read_from_files: tree_offset keyword")
+            offset_var, default_offset = name, v.args[1].value
+            f.env[name] = "Int"
+            lets.append("let %s := tree_offset in" % name)
+            scalars.append(name)
+        elif isinstance(v, ast.Call) and attr_chain(v.func) == (selfname, ["tree_type", "yield_from_files"]):
+            kw = {k.arg: k.value for k in v.keywords}
+            if v.args or not (isinstance(kw.get("files"), ast.Name) and kw["files"].id == "files") \
+                    or not (isinstance(kw.get("schema"), ast.Name) and kw["schema"].id == "schema") \
+                    or not (isinstance(kw.get(None), ast.Name) and kw[None].id == kwname) or f.yielder is not None:
+                bad(s, "read_from_files: the yielder must be tree_type.yield_from_files(files=files, schema=schema, ..., **kwargs)")
+            if offset_var is None:
+                bad(s, "read_from_files: tree_offset is handed on to the yielder")
+            f.yielder = name
+        elif isinstance(v, ast.Constant):
+            code = f.assign(s, lambda: "")
+            lets.append(code.rstrip("\n"))
+            scalars.append(name)
+        else:
+            bad(s, "read_from_files: statement before the loop")
+    if f.yielder is None or offset_var is None:
+        bad(fn, "read_from_files: no yielder / no tree_offset")
+    # the loop header
+    if loop.orelse:
+        bad(loop, "for-else")
+    tgt, it = loop.target, loop.iter
+    if isinstance(tgt, ast.Name) and isinstance(it, ast.Name) and it.id == f.yielder:
+        tree_var = tgt.id
+    elif isinstance(tgt, ast.Tuple) and len(tgt.elts) == 2 and all(isinstance(x, ast.Name) for x in tgt.elts) \
+            and isinstance(it, ast.Call) and isinstance(it.func, ast.Name) and it.func.id == "enumerate" and len(it.args) == 1 \
+            and not it.keywords and isinstance(it.args[0], ast.Name) and it.args[0].id == f.yielder:
+        idx_var, tree_var = tgt.elts[0].id, tgt.elts[1].id
+        for x in ast.walk(ast.Module(body=list(loop.body), type_ignores=[])):
+            if isinstance(x, ast.Name) and x.id == idx_var:
+                bad(x, "the enumerate index is used")
+    else:
+        bad(loop, "read_from_files: loop header")
+    if tree_var in f.env:
+        bad(loop, "loop variable shadows a local")
+    f.env[tree_var] = "TREE"
+    types0 = {n: f.env[n] for n in scalars}
+    call = lambda: "gen_read_from_files_loop yielded' %s %s" % (selfname, " ".join(scalars))
+    code = f.block(loop.body, call)
+    for n in scalars:
+        if f.env.get(n) != types0[n]:
+            bad(loop, "loop variable %s changes its type" % n)
+    ct = lambda t: {"OptBool": "option bool"}.get(t) or COQTYPE[t]
+    ps = " ".join("(%s : %s)" % (n, ct(types0[n])) for n in scalars)
+    out = ("(* TreeArray.read_from_files, line %d: the loop at line %d.  `yielded` is what tree_yielder delivers: the pairs\n"
+           "   (tree_yielder.current_file_index, tree), in order.  A source without trees contributes no pair. *)\n"
+           "Fixpoint gen_read_from_files_loop (yielded : list (Z * trec)) (%s : tarr) %s : tarr * option terr :=\n"
+           "  match yielded with\n"
+           "  | [] => (%s, None)\n"
+           "  | (yielder_file_index, %s) :: yielded' =>\n%s\n"
+           "  end.\n\n"
+           "Definition gen_read_from_files_default_offset : Z := %d.\n\n"
+           "Definition gen_read_from_files (%s : tarr) (tree_offset : Z) (yielded : list (Z * trec)) : tarr * option terr :=\n%s\n"
+           "  gen_read_from_files_loop yielded %s %s.\n"
+           % (fn.lineno, loop.lineno, selfname, ps, selfname, tree_var, indent(code, 4), default_offset, selfname,
+              indent("\n".join(lets)), selfname, " ".join(scalars)))
+    return out
+
+
 # ---- sumtrees.py
 
 def cfg_expr(e):
@@ -967,6 +1195,59 @@ def parent_facts_and_collation(fn):
     return facts, code
 
 
+def read_into_facts(mod, W, P):
+    """sumtrees._read_into_tree_array and its two callers: which sources and which burn-in reach
+    TreeArray.read_from_files (FACTS; the progress-logging loop of the `else` branch is not translated)"""
+    fn = None
+    for n in mod.body:
+        if isinstance(n, ast.FunctionDef) and n.name == "_read_into_tree_array":
+            fn = n
+    if fn is None:
+        raise Unsupported("_read_into_tree_array not found")
+    facts = {"quiet_is_read_from_files": False, "worker_one_source_per_call": False, "worker_passes_offset": False,
+             "serial_passes_all_sources": False, "serial_passes_offset": False}
+    body = [s for s in fn.body if not (isinstance(s, ast.Expr) and isinstance(s.value, ast.Constant))]
+    if len(body) != 1 or not isinstance(body[0], ast.If):
+        bad(fn, "_read_into_tree_array: expected a single `if not log_frequency:`")
+    top = body[0]
+    t = top.test
+    if not (isinstance(t, ast.UnaryOp) and isinstance(t.op, ast.Not) and isinstance(t.operand, ast.Name) and t.operand.id == "log_frequency"):
+        bad(top, "_read_into_tree_array: branch test")
+    if len(top.body) == 1 and isinstance(top.body[0], ast.Expr) and isinstance(top.body[0].value, ast.Call):
+        c = top.body[0].value
+        kw = {k.arg: k.value for k in c.keywords}
+        if attr_chain(c.func) == ("tree_array", ["read_from_files"]) and not c.args \
+                and isinstance(kw.get("files"), ast.Name) and kw["files"].id == "tree_sources" \
+                and isinstance(kw.get("tree_offset"), ast.Name) and kw["tree_offset"].id == "tree_offset" \
+                and isinstance(kw.get("schema"), ast.Name) and kw["schema"].id == "schema":
+            facts["quiet_is_read_from_files"] = True
+    # the worker: _read_into_tree_array(tree_array=self.tree_array, tree_sources=[<fetched>], tree_offset=self.tree_offset, ...)
+    for c in ast.walk(find_method(W, "run")):
+        if isinstance(c, ast.Call) and isinstance(c.func, ast.Name) and c.func.id == "_read_into_tree_array":
+            kw = {k.arg: k.value for k in c.keywords}
+            ts = kw.get("tree_sources")
+            facts["worker_one_source_per_call"] = isinstance(ts, ast.List) and len(ts.elts) == 1 and isinstance(ts.elts[0], ast.Name)
+            facts["worker_passes_offset"] = is_self_attr(kw.get("tree_offset"), "tree_offset")
+    init = find_method(W, "__init__")
+    if not any(isinstance(s, ast.Assign) and len(s.targets) == 1 and is_self_attr(s.targets[0], "tree_offset")
+               and isinstance(s.value, ast.Name) and s.value.id == "tree_offset" for s in ast.walk(init)):
+        facts["worker_passes_offset"] = False
+    par = find_method(P, "parallel_analyze_trees")
+    ok = False
+    for c in ast.walk(par):
+        if isinstance(c, ast.Call) and isinstance(c.func, ast.Name) and c.func.id == "TreeAnalysisWorker":
+            kw = {k.arg: k.value for k in c.keywords}
+            ok = isinstance(kw.get("tree_offset"), ast.Name) and kw["tree_offset"].id == "tree_offset"
+    facts["worker_passes_offset"] = facts["worker_passes_offset"] and ok
+    for c in ast.walk(find_method(P, "serial_analyze_trees")):
+        if isinstance(c, ast.Call) and isinstance(c.func, ast.Name) and c.func.id == "_read_into_tree_array":
+            kw = {k.arg: k.value for k in c.keywords}
+            facts["serial_passes_all_sources"] = isinstance(kw.get("tree_sources"), ast.Name) and kw["tree_sources"].id == "tree_sources"
+            facts["serial_passes_offset"] = isinstance(kw.get("tree_offset"), ast.Name) and kw["tree_offset"].id == "tree_offset"
+    return facts
+
+
+
 def generate(repo):
     src = os.path.join(repo, "src", "dendropy")
     tcm = ast.parse(open(os.path.join(src, "datamodel", "treecollectionmodel.py")).read())
@@ -989,6 +1270,7 @@ def generate(repo):
     out.append(gen_method(TA, "extend", "gen_extend", "TA", ["TA"], "exc", "tarr * option terr"))
     out.append(gen_method(TA, "__iadd__", "gen_iadd", "TA", ["TA"], "exc", "tarr * option terr"))
     out.append(gen_add(TA))
+    out.append(gen_read_from_files(TA))
     # sumtrees: the arrays
     out.append(gen_array0(find_method(W, "__init__"), "gen_worker_array", lambda t: is_self_attr(t, "tree_array"),
                           "TreeAnalysisWorker.__init__: self.tree_array"))
@@ -1011,6 +1293,16 @@ def generate(repo):
     out.append("Definition parent_sources_then_markers : bool := %s." % b(pf["sources_then_markers"]))
     out.append("Definition parent_one_marker_per_worker : bool := %s." % b(pf["one_marker_per_worker"]))
     out.append("Definition parent_one_worker_per_process : bool := %s." % b(pf["one_worker_per_process"]))
+    rf = read_into_facts(st, W, P)
+    out.append("(* sumtrees._read_into_tree_array and its callers: which sources and which burn-in reach read_from_files *)")
+    out.append("Definition quiet_read_is_read_from_files : bool := %s." % b(rf["quiet_is_read_from_files"]))
+    out.append("Definition worker_reads_one_source_per_call : bool := %s." % b(rf["worker_one_source_per_call"]))
+    out.append("Definition worker_passes_tree_offset : bool := %s." % b(rf["worker_passes_offset"]))
+    out.append("Definition serial_passes_all_sources : bool := %s." % b(rf["serial_passes_all_sources"]))
+    out.append("Definition serial_passes_tree_offset : bool := %s." % b(rf["serial_passes_offset"]))
+    out.append("Definition source_burnin_reaches_read_from_files : bool :=\n"
+               "  quiet_read_is_read_from_files && worker_reads_one_source_per_call && worker_passes_tree_offset\n"
+               "  && serial_passes_all_sources && serial_passes_tree_offset.")
     out.append("")
     out.append("Definition source_uses_marker_protocol : bool :=\n"
                "  uses_marker_protocol worker_fetch worker_exit_on_marker worker_exit_on_empty\n"
